@@ -223,6 +223,17 @@ func (q *c16Request) chunked() bool {
 	return h.Sum32()%3 == 0
 }
 
+// userAgent: requests carry the User-Agent strings real clients send — product/version pairs, bare words (health
+// checks, scripts), a trailing slash, several words, none at all — chosen by the request's content so that a replay
+// makes the same choice. No answer may depend on it.
+func (q *c16Request) userAgent() string {
+	uas := []string{"", "Go-http-client/1.1", "curl/8.5.0", "healthcheck", "monitoring/", "my-wallet 2", "/", "Mozilla/5.0 (X11; Linux x86_64) AppleWebKit/537.36", "kube-probe/1.29", "a/ b", "\t"}
+	h := fnv.New32a()
+	_, _ = h.Write([]byte("ua " + q.Method + " " + q.Target + " " + q.AuthH))
+	_, _ = h.Write(q.Body)
+	return uas[h.Sum32()%uint32(len(uas))]
+}
+
 func (q *c16Request) build() (*http.Request, error) {
 	var rd *bytes.Reader
 	if q.Body == nil {
@@ -236,6 +247,9 @@ func (q *c16Request) build() (*http.Request, error) {
 	}
 	req.RequestURI = q.Target
 	req.RemoteAddr = "192.0.2.1:1234"
+	if ua := q.userAgent(); ua != "" {
+		req.Header.Set("User-Agent", ua)
+	}
 	if q.chunked() {
 		// what the server sees for `Transfer-Encoding: chunked`: a body of undeclared length
 		req.Body = io.NopCloser(struct{ io.Reader }{bytes.NewReader(q.Body)})
